@@ -122,6 +122,13 @@ func c04Run(c *Ctx) {
 	n := 0
 	var curSpec *gspec
 	run := func(b *built, cl call, fail []string) {
+		// the calls of a shard are numbered: a call that kills the worker is named by its number, and the
+		// restarted worker resumes after it
+		my := c.idx
+		c.idx++
+		if my < c.skipTo {
+			return
+		}
 		if c.Expired() {
 			return
 		}
@@ -224,6 +231,16 @@ func c04Run(c *Ctx) {
 					g.EntrySpell = sp
 					if mine(fmt.Sprint("s", nn, mask, pp, sp)) {
 						allCalls(g.build(), g)
+					}
+				}
+				// target shapes: schemas held in a map, a list, by pointer (a typed root hands out what it holds)
+				for _, shape := range []int{1, 2, 5, 6} {
+					for node := 0; node < nn; node++ {
+						g := base.clone()
+						g.Shape[node] = shape
+						if mine(fmt.Sprint("sh", nn, mask, pp, shape, node)) {
+							allCalls(g.build(), g)
+						}
 					}
 				}
 				// ids on each node
